@@ -72,6 +72,12 @@ impl<'a, C: Context> Readable<'a, C> for Locator {
     let repr = repr::Locator::read_from(reader)?;
     Ok(repr.into())
   }
+
+  // With this, reading a list of Locators refuses a count that the rest of the
+  // input cannot hold, instead of allocating for whatever the wire says.
+  fn minimum_bytes_needed() -> usize {
+    <repr::Locator as Readable<'a, C>>::minimum_bytes_needed()
+  }
 }
 
 impl<C: Context> Writable<C> for Locator {
